@@ -273,8 +273,11 @@ def render(case, P):
                 lines.append("frag %d" % ref)
             elif kind == "stream":
                 lines.append("stream %d %d" % (ref, [10, 4096, 4097, 100000][c % 4]))
-            else:
+            elif c % 2:
                 lines.append("cross %d" % ref)
+            else:
+                # ... with another file read through the same data reader while the stream is open
+                lines.append("cross %d %d" % (ref, files[b % len(files)]))
         elif kind == "xattr":
             lines.append("xattr %d" % (b if bad else (a % max(1, P["nx"]))))
         elif kind == "xdesc":
